@@ -253,16 +253,17 @@ func (m *monitor) OnOpen(c gnet.Conn) (out []byte, action gnet.Action) {
 	cs.opens = 1
 	atomic.StoreInt32(&cs.state, 1)
 	c.SetContext(cs)
+	m.logf("OnOpen tok=%d fd=%d loop=%d remote=%s local=%s", cs.tok, cs.fd, cs.loopIdx, cs.remote, cs.local)
+	if m.h.onOpen != nil {
+		out, action = m.h.onOpen(cs, c)
+	}
+	// published only now, so that whoever finds the record also finds the scenario's data
 	m.mu.Lock()
 	m.conns[cs.tok] = cs
 	m.byKey[cs.key] = cs
 	m.mu.Unlock()
 	m.opened.Add(1)
-	m.logf("OnOpen tok=%d fd=%d loop=%d remote=%s local=%s", cs.tok, cs.fd, cs.loopIdx, cs.remote, cs.local)
-	if m.h.onOpen != nil {
-		return m.h.onOpen(cs, c)
-	}
-	return nil, gnet.None
+	return out, action
 }
 
 func (m *monitor) OnTraffic(c gnet.Conn) gnet.Action {
